@@ -168,4 +168,22 @@ PROPS = {
               {"asan": {"workers": 10}, "plain": {"workers": 6}},
               {"asan": {"workers": 10}, "plain": {"workers": 6}}),
     ),
+    "C06": dict(
+        level="exploration",
+        rule=("one run = a history of <=30/40 operations by 1..3 actors under the seeded scheduler: register an overload drawn from a catalogue "
+              "of 40 signatures (value, const&, &, *, const*, shared_ptr, shared_ptr<const>, std::function, arithmetic, bool, string, Base / "
+              "Derived / Other classes, Boxed_Value / Boxed_Number catch-alls, arity 1-2) under one of <=3 names, register the Derived->Base "
+              "conversion, call a name with 0-3 arguments drawn from 14 script values (const and non-const sources of every kind), fetch a function "
+              "object and call it later, boxed_cast a script value to one of 8 C++ types. distinct = hash of the history x interleaving; "
+              "non-trivial = at least one C++ function entered or cast succeeded. Oracle: soundness rules over the entry log (see DESIGN.md)."),
+        real_vs_stub=REAL,
+        assumptions=COMMON_ASSUME + ["weakest fit of the claimed properties: the (overload set x argument tuple) space is an input space; simulation contributes registration order, "
+                                     "registrations concurrent with calls, function objects fetched earlier, per-thread conversion caches",
+                                     "const-ness of the argument is not part of the entry rules (property C07's subject); it is used only to decide which calls MUST succeed",
+                                     "function bodies that themselves throw bad_boxed_cast (which dispatch treats as 'try the next overload') are not generated"],
+        expected_probes=["probe_entered_through_base_conversion", "probe_entered_through_conversion_or_catch_all", "casts_succeeded", "casts_refused", "calls_refused"],
+        **two(40, 420,
+              {"asan": {"workers": 8}, "plain": {"workers": 4}, "tsan": {"workers": 4}},
+              {"asan": {"workers": 8}, "plain": {"workers": 4}, "tsan": {"workers": 4}}),
+    ),
 }
